@@ -80,6 +80,9 @@ struct Case {
     /// 0: sibling files keep their names; 1: every imported sibling is renamed `name-1.0.xsd` (the schemaLocations are
     /// rewritten accordingly): names with more than one dot
     sib_style: u64,
+    /// after the (possibly faulted or failing) run, the tool is started again in the SAME tree without any fault:
+    /// whatever the first run left behind (partial output, temporary files) must not change the second result
+    rerun: bool,
 }
 
 const NAME_STYLES: [&str; 4] = ["as-is", "two-dots", "blank-in-name", "non-ascii-name"];
@@ -135,7 +138,8 @@ fn decode_case(ch: &mut Chooser, nsets: usize) -> Case {
     let rust_log = ch.choose("rust_log", 3);
     let tmpdir = ch.choose("tmpdir", 3);
     let sib_style = ch.choose("sibling_name_style", 2);
-    Case { input, spelling, output, pre, extra, longflags, arg_form, entropy, dirperm, fault, name_style, link_style, stderr_full, rust_log, tmpdir, sib_style }
+    let rerun = ch.choose("rerun_in_same_tree", 2) == 1;
+    Case { input, spelling, output, pre, extra, longflags, arg_form, entropy, dirperm, fault, name_style, link_style, stderr_full, rust_log, tmpdir, sib_style, rerun }
 }
 
 fn encode_case(c: &Case) -> Vec<u64> {
@@ -148,7 +152,7 @@ fn encode_case(c: &Case) -> Vec<u64> {
     } else {
         t.push(0);
     }
-    t.extend([c.name_style, c.link_style, u64::from(c.stderr_full), c.rust_log, c.tmpdir, c.sib_style]);
+    t.extend([c.name_style, c.link_style, u64::from(c.stderr_full), c.rust_log, c.tmpdir, c.sib_style, u64::from(c.rerun)]);
     t
 }
 
@@ -273,6 +277,8 @@ struct RunObs {
     stray_changes: Vec<String>,
     args: Vec<String>,
     cwd_rel: String,
+    /// second, fault-free execution in the same tree: (exit code, output bytes)
+    rerun: Option<(Option<i32>, Option<Vec<u8>>)>,
 }
 
 fn snapshot(root: &Path) -> BTreeMap<String, u64> {
@@ -425,6 +431,14 @@ fn run_once(sets: &[InputSet], c: &Case, spelling: u64, expected: &Expected) -> 
     };
     let run = cli::run_zeep(&top, &cwd, &args, &plan, "r");
     let out_after = std::fs::read(&out_abs).ok();
+    let rerun = if c.rerun {
+        let mut clean = plan.clone();
+        clean.faults.clear();
+        let r2 = cli::run_zeep(&top, &cwd, &args, &clean, "r2");
+        Some((r2.exit_code, std::fs::read(&out_abs).ok()))
+    } else {
+        None
+    };
     let after = if probe_stray { snapshot(&top) } else { BTreeMap::new() };
     let out_rel = out_abs.strip_prefix(&top).unwrap_or(&out_abs).to_string_lossy().to_string();
     let mut stray = Vec::new();
@@ -450,6 +464,7 @@ fn run_once(sets: &[InputSet], c: &Case, spelling: u64, expected: &Expected) -> 
         stray_changes: stray,
         args: args.iter().map(|a| a.replace(&*top.to_string_lossy(), "<TOP>")).collect(),
         cwd_rel: cwd.strip_prefix(&top).map_or("<TOP>".into(), |p| format!("<TOP>/{}", p.display())),
+        rerun,
     }
 }
 
@@ -531,6 +546,27 @@ fn judge_run(sets: &[InputSet], c: &Case, spelling: u64, r: &RunObs, expected: &
             }
         }
     }
+    // recovery: a second, fault-free start in the same tree must give exactly the library's result
+    if let Some((code, bytes)) = &r.rerun {
+        let first = if fired { format!("fault={}", fault_tag(c, r)) } else if r.cli.success() { "success".to_string() } else { format!("stage={stage}") };
+        match expected {
+            Expected::Bytes(e) => {
+                if *code != Some(0) || bytes.as_ref() != Some(e) {
+                    f.push(Finding {
+                        class: "rerun-differs".into(),
+                        key: format!("rerun-differs:after-{first}"),
+                        detail: format!("a second, fault-free run in the same tree exits {code:?} with {:?} bytes (library: {} bytes); first run: exit {:?}, {first} (input {}, spelling {sp})", bytes.as_ref().map(Vec::len), e.len(), r.cli.exit_code, set.name),
+                    });
+                }
+            }
+            Expected::Fails(_) => {
+                if *code == Some(0) {
+                    f.push(Finding { class: "rerun-false-success".into(), key: format!("rerun-false-success:stage={stage}"), detail: format!("the second run in the same tree exits 0 although generation fails on this input ({})", set.name) });
+                }
+            }
+            Expected::Unstable => {}
+        }
+    }
     f
 }
 
@@ -602,7 +638,7 @@ fn case_json(sets: &[InputSet], c: &Case) -> Value {
         "input_set": sets[c.input].name, "stage": sets[c.input].stage, "start_file": sets[c.input].start,
         "files": sets[c.input].files.iter().map(|(n, b)| json!({"name": n, "bytes": b.len(), "hash": format!("{:016x}", simkernel::hash_bytes(b))})).collect::<Vec<_>>(),
         "spelling": SPELLINGS[c.spelling as usize], "output": OUTPUTS[c.output as usize], "preexisting_output": PRE[c.pre as usize],
-        "extra_entries": EXTRAS[c.extra as usize], "stderr": if c.stderr_full { "/dev/full" } else { "pipe" }, "RUST_LOG": rust_log_name(c.rust_log), "TMPDIR": tmpdir_name(c.tmpdir), "sibling_names": if c.sib_style == 1 { "renamed name-1.0.xsd" } else { "as in the set" }, "argument_form": arg_form_name(c.arg_form), "start_file_name": styled_start(&sets[c.input].start, c.name_style), "name_style": NAME_STYLES[c.name_style as usize], "link_style": LINK_STYLES[c.link_style as usize],
+        "extra_entries": EXTRAS[c.extra as usize], "stderr": if c.stderr_full { "/dev/full" } else { "pipe" }, "RUST_LOG": rust_log_name(c.rust_log), "TMPDIR": tmpdir_name(c.tmpdir), "second_run_in_same_tree": c.rerun, "sibling_names": if c.sib_style == 1 { "renamed name-1.0.xsd" } else { "as in the set" }, "argument_form": arg_form_name(c.arg_form), "start_file_name": styled_start(&sets[c.input].start, c.name_style), "name_style": NAME_STYLES[c.name_style as usize], "link_style": LINK_STYLES[c.link_style as usize],
         "entropy": format!("{:x}", c.entropy), "dirperm": c.dirperm,
         "fault": c.fault.as_ref().map(FaultSpec::describe),
     })
@@ -615,7 +651,7 @@ fn run_json(spelling: u64, r: &RunObs) -> Value {
         "stderr": r.cli.stderr, "output_path": r.out_path_rel, "output_len": r.out_after.as_ref().map(Vec::len),
         "output_hash": r.out_after.as_ref().map(|b| format!("{:016x}", simkernel::hash_bytes(b))),
         "preexisting_len": r.pre_bytes.as_ref().map(Vec::len), "stray_changes": r.stray_changes,
-        "injected": r.cli.injected(), "trace_without_plain_output_writes": tr,
+        "injected": r.cli.injected(), "second_run": r.rerun.as_ref().map(|(c, b)| json!({"exit": c, "output_len": b.as_ref().map(Vec::len)})), "trace_without_plain_output_writes": tr,
     })
 }
 
@@ -769,7 +805,7 @@ fn build_tapes(sets: &[InputSet], tier: &str, seed: u64) -> (Vec<Vec<u64>>, Valu
                         if *extra == 9 && (input > 1 || output > 0 || pre > 2) {
                             continue; // 256 files per run: a few cases are enough, the seeded mixes add more
                         }
-                        let c = Case { input, spelling, output, pre, extra: *extra, longflags: (spelling + output) % 4 == 1, arg_form: (spelling + output + pre) % 5, entropy: 0, dirperm: if *extra == 2 { 7 } else { 0 }, fault: None, name_style: ((input as u64 + spelling) % 4) * u64::from((output + pre) % 2 == 0), link_style: ((spelling + pre + *extra) % 3) * u64::from((input as u64 + output) % 2 == 1), stderr_full: (input as u64 + spelling + pre) % 5 == 0, rust_log: (spelling + output + pre) % 3, tmpdir: (input as u64 + output + *extra) % 3, sib_style: (spelling + *extra) % 2 };
+                        let c = Case { input, spelling, output, pre, extra: *extra, longflags: (spelling + output) % 4 == 1, arg_form: (spelling + output + pre) % 5, entropy: 0, dirperm: if *extra == 2 { 7 } else { 0 }, fault: None, name_style: ((input as u64 + spelling) % 4) * u64::from((output + pre) % 2 == 0), link_style: ((spelling + pre + *extra) % 3) * u64::from((input as u64 + output) % 2 == 1), stderr_full: (input as u64 + spelling + pre) % 5 == 0, rust_log: (spelling + output + pre) % 3, tmpdir: (input as u64 + output + *extra) % 3, sib_style: (spelling + *extra) % 2, rerun: (input as u64 + pre) % 3 == 0 };
                         tapes.push(encode_case(&c));
                         n_cfg += 1;
                     }
@@ -781,24 +817,24 @@ fn build_tapes(sets: &[InputSet], tier: &str, seed: u64) -> (Vec<Vec<u64>>, Valu
     let idx_of = |name: &str| sets.iter().position(|s| s.name == name);
     let mut scen = Vec::new();
     if let Some(i) = idx_of("tempconverter") {
-        scen.push(Case { input: i, spelling: 2, output: 0, pre: 2, extra: 0, longflags: false, arg_form: 0, entropy: 0, dirperm: 0, fault: None, name_style: 0, link_style: 0, stderr_full: false, rust_log: 0, tmpdir: 0, sib_style: 0 });
+        scen.push(Case { input: i, spelling: 2, output: 0, pre: 2, extra: 0, longflags: false, arg_form: 0, entropy: 0, dirperm: 0, fault: None, name_style: 0, link_style: 0, stderr_full: false, rust_log: 0, tmpdir: 0, sib_style: 0, rerun: true });
     }
     if let Some(i) = idx_of("chain") {
-        scen.push(Case { input: i, spelling: 1, output: 2, pre: 1, extra: 1, longflags: true, arg_form: 1, entropy: 0, dirperm: 3, fault: None, name_style: 1, link_style: 1, stderr_full: false, rust_log: 1, tmpdir: 1, sib_style: 1 });
+        scen.push(Case { input: i, spelling: 1, output: 2, pre: 1, extra: 1, longflags: true, arg_form: 1, entropy: 0, dirperm: 3, fault: None, name_style: 1, link_style: 1, stderr_full: false, rust_log: 1, tmpdir: 1, sib_style: 1, rerun: true });
     }
     if let Some(i) = idx_of("big-cwmp") {
         // an output larger than 64 KiB: a tool that writes in chunks is failed at each of its chunks
-        scen.push(Case { input: i, spelling: 1, output: 1, pre: 2, extra: 0, longflags: false, arg_form: 0, entropy: 0, dirperm: 0, fault: None, name_style: 0, link_style: 0, stderr_full: false, rust_log: 0, tmpdir: 0, sib_style: 0 });
+        scen.push(Case { input: i, spelling: 1, output: 1, pre: 2, extra: 0, longflags: false, arg_form: 0, entropy: 0, dirperm: 0, fault: None, name_style: 0, link_style: 0, stderr_full: false, rust_log: 0, tmpdir: 0, sib_style: 0, rerun: true });
     }
     if thorough {
         if let Some(i) = idx_of("hello") {
-            scen.push(Case { input: i, spelling: 4, output: 3, pre: 0, extra: 0, longflags: false, arg_form: 0, entropy: 0, dirperm: 0, fault: None, name_style: 0, link_style: 0, stderr_full: false, rust_log: 0, tmpdir: 0, sib_style: 0 });
+            scen.push(Case { input: i, spelling: 4, output: 3, pre: 0, extra: 0, longflags: false, arg_form: 0, entropy: 0, dirperm: 0, fault: None, name_style: 0, link_style: 0, stderr_full: false, rust_log: 0, tmpdir: 0, sib_style: 0, rerun: true });
         }
         if let Some(i) = idx_of("malformed-sibling") {
-            scen.push(Case { input: i, spelling: 5, output: 1, pre: 2, extra: 0, longflags: false, arg_form: 0, entropy: 0, dirperm: 0, fault: None, name_style: 0, link_style: 0, stderr_full: false, rust_log: 0, tmpdir: 0, sib_style: 0 });
+            scen.push(Case { input: i, spelling: 5, output: 1, pre: 2, extra: 0, longflags: false, arg_form: 0, entropy: 0, dirperm: 0, fault: None, name_style: 0, link_style: 0, stderr_full: false, rust_log: 0, tmpdir: 0, sib_style: 0, rerun: true });
         }
         if let Some(i) = idx_of("orders") {
-            scen.push(Case { input: i, spelling: 1, output: 0, pre: 2, extra: 3, longflags: false, arg_form: 0, entropy: 0, dirperm: 5, fault: None, name_style: 2, link_style: 2, stderr_full: true, rust_log: 2, tmpdir: 2, sib_style: 0 });
+            scen.push(Case { input: i, spelling: 1, output: 0, pre: 2, extra: 3, longflags: false, arg_form: 0, entropy: 0, dirperm: 5, fault: None, name_style: 2, link_style: 2, stderr_full: true, rust_log: 2, tmpdir: 2, sib_style: 0, rerun: true });
         }
     }
     let mut enumerated = Vec::new();
